@@ -891,3 +891,293 @@ StandIn("c04_crosstab", lambda rng, tier: _crosstab_cases(rng, tier, "numpy"), _
               "subsets in random order incl. absent ids; NumPy backend")
 StandIn("c03_crosstab_dask", lambda rng, tier: _crosstab_cases(rng, tier, "dask"), _crosstab_check,
         bound="as c04_crosstab on Dask-backed rasters with independent random chunkings of zones and values")
+
+
+# =========================================================================== C17 local operators
+LOCAL_OPS = ["cell_stats", "combine", "lesser_frequency", "equal_frequency", "greater_frequency", "lowest_position",
+             "highest_position", "popularity", "rank"]
+
+
+def _c17_cases(rng, tier):
+    while True:
+        shape = (rng.randint(1, 4), rng.randint(1, 5))
+        nl = rng.randint(2, 6)
+        pool = rng.choice([[1.0, 2.0, 3.0], [1.0, 1.0, 2.0, 5.0, -3.0], [0.5, 1.5, 2.5, 7.0]])
+        layers = []
+        for _ in range(nl):
+            a = np.array([rng.choice(pool) for _ in range(shape[0] * shape[1])], dtype=rng.choice(["float64", "float64", "int64"])).reshape(shape)
+            if a.dtype.kind == "f" and rng.random() < 0.4:
+                a[rng.randrange(shape[0]), rng.randrange(shape[1])] = np.nan
+            layers.append({"data": enc(a), "order": rng.choice(["C", "F", "view"])})
+        ref = np.array([rng.randint(1, nl) for _ in range(shape[0] * shape[1])], dtype="int64").reshape(shape)
+        op = rng.choice(LOCAL_OPS)
+        yield {"op": op, "layers": layers, "ref": enc(ref), "func": rng.choice(["max", "mean", "median", "min", "std", "sum"]),
+               "subset": rng.random() < 0.3}
+
+
+def _layout(a, order):
+    if order == "F":
+        return np.asfortranarray(a)
+    if order == "view":
+        big = np.zeros((a.shape[0] * 2, a.shape[1] * 2), dtype=a.dtype)
+        big[::2, ::2] = a
+        return big[::2, ::2]
+    return np.ascontiguousarray(a)
+
+
+def _c17_check(case):
+    import importlib, warnings
+    import xarray as xr
+    local = importlib.import_module("xrspatial.local")
+    arrs = [_layout(dec_arr(l["data"]), l["order"]) for l in case["layers"]]
+    ref = dec_arr(case["ref"])
+    names = ["v%d" % i for i in range(len(arrs))]
+    ds = xr.Dataset({n: xr.DataArray(a, dims=["y", "x"]) for n, a in zip(names, arrs)})
+    ds["ref"] = xr.DataArray(ref, dims=["y", "x"])
+    use = names[:-1] if case["subset"] and len(names) > 2 else names
+    op = case["op"]
+    kw = {"data_vars": list(use)}
+    needs_ref = op in ("lesser_frequency", "equal_frequency", "greater_frequency", "popularity", "rank")
+    if needs_ref:
+        kw["ref_var"] = "ref"
+    if op == "cell_stats":
+        kw["func"] = case["func"]
+    with warnings.catch_warnings():
+        warnings.simplefilter("ignore")
+        out = getattr(local, op)(ds, **kw)
+    got = np.asarray(out.values, dtype="float64")
+    h, w = ref.shape
+    if got.shape != (h, w):
+        return "%s: output shape %s, expected %s" % (op, got.shape, (h, w))
+    ids = {}
+    key = {}
+    for y in range(h):
+        for x in range(w):
+            tup = tuple(float(a[y, x]) for a, n in zip(arrs, names) if n in use)
+            r = int(ref[y, x])
+            nan = any(np.isnan(t) for t in tup)
+            if op == "cell_stats":
+                exp = float({"max": np.max, "mean": np.mean, "median": np.median, "min": np.min, "std": np.std, "sum": np.sum}[case["func"]](tup))
+                # NaN in any layer makes the cell NaN (np.* reducers propagate NaN)
+            elif nan:
+                exp = np.nan
+            elif op == "combine":
+                if tup not in ids:
+                    ids[tup] = len(ids) + 1
+                    key[ids[tup]] = tup
+                exp = ids[tup]
+            elif op == "lesser_frequency":
+                exp = sum(1 for t in tup if t < r)
+            elif op == "equal_frequency":
+                exp = sum(1 for t in tup if t == r)
+            elif op == "greater_frequency":
+                exp = sum(1 for t in tup if t > r)
+            elif op == "lowest_position":
+                exp = tup.index(min(tup)) + 1
+            elif op == "highest_position":
+                exp = tup.index(max(tup)) + 1
+            elif op == "rank":
+                exp = sorted(tup)[r - 1] if r - 1 < len(tup) else np.nan
+            elif op == "popularity":
+                continue          # defined on ties of the value histogram; covered by its own clause below
+            if not same(got[y, x], exp, 1e-12):
+                return "%s at cell (%d,%d): layers %r ref %r -> %r, expected %r (layouts %s)" % (
+                    op, y, x, tup, r, got[y, x], exp, [l["order"] for l in case["layers"]])
+    if op == "combine":
+        k = out.attrs.get("key")
+        if {int(a): tuple(float(v) for v in b) for a, b in k.items()} != key:
+            return "combine: attrs['key'] %r is not the id -> tuple map %r in first-occurrence order" % (k, key)
+    return None
+
+
+StandIn("c17_local_operators", _c17_cases, _c17_check,
+        bound="random datasets of 2..6 layers up to 4x5 (ties, NaN, ints/floats), C / Fortran / non-contiguous layouts mixed, integer "
+              "reference layer with values in 1..n, data_vars subsets; all operators except popularity's tie rule")
+
+
+# =========================================================================== C06 / C07 proximity, allocation, direction
+def _bearing(x1, x2, y1, y2):
+    """the library's compass convention (docstring of direction / _calc_direction): 0 for the cell itself, otherwise
+    atan2(-(y2-y1), x2-x1) in degrees turned into 90 = east, 180 = larger y, 270 = west, 360 = smaller y"""
+    if x1 == x2 and y1 == y2:
+        return 0.0
+    d = math.degrees(math.atan2(-(y2 - y1), x2 - x1))
+    theta = (90.0 - d) % 360.0
+    return theta if theta > 1e-9 else 360.0       # documented: 360 to the north, 0 reserved for the cell itself
+
+
+def _dist(metric, x1, x2, y1, y2):
+    if metric == "EUCLIDEAN":
+        return math.hypot(x1 - x2, y1 - y2)
+    if metric == "MANHATTAN":
+        return abs(x1 - x2) + abs(y1 - y2)
+    lat1, lon1, lat2, lon2 = map(math.radians, (y1, x1, y2, x2))
+    a = math.sin((lat2 - lat1) / 2) ** 2 + math.cos(lat1) * math.cos(lat2) * math.sin((lon2 - lon1) / 2) ** 2
+    return 6378137 * 2 * math.asin(math.sqrt(a))
+
+
+def _prox_grid(rng, small):
+    if small:
+        H, W = rng.choice([(1, 4), (2, 3), (3, 3), (3, 4), (4, 3), (2, 5), (4, 1)])
+    else:
+        H, W = rng.randint(1, 7), rng.randint(1, 7)
+    return H, W
+
+
+def _c06_cases(rng, tier, exhaustive=False):
+    if exhaustive:
+        for (H, W) in [(2, 3), (3, 3), (3, 4), (4, 3), (2, 5)] if tier == "thorough" else [(2, 3), (3, 3)]:
+            for ysign in (1, -1):
+                for bits in range(1, 2 ** (H * W)):
+                    for metric in ("EUCLIDEAN", "MANHATTAN"):
+                        yield {"H": H, "W": W, "cells": [(bits >> k) & 1 for k in range(H * W)], "ysign": ysign, "xstep": 2.0,
+                               "ystep": 1.0, "metric": metric, "max_distance": None, "target_values": None, "exact": True}
+        return
+    while True:
+        H, W = _prox_grid(rng, False)
+        single = rng.random() < 0.25
+        cells = [0] * (H * W)
+        if single:
+            cells[rng.randrange(H * W)] = rng.choice([1, 2, 5])
+        else:
+            dens = rng.choice([0.1, 0.3, 0.6])
+            cells = [rng.choice([1, 2, 3, -1]) if rng.random() < dens else 0 for _ in range(H * W)]
+        if rng.random() < 0.2:
+            cells[rng.randrange(H * W)] = "nan"
+        metric = rng.choice(["EUCLIDEAN", "MANHATTAN", "GREAT_CIRCLE"])
+        case = {"H": H, "W": W, "cells": cells, "ysign": rng.choice([1, -1]), "metric": metric,
+                "xstep": rng.choice([1.0, 2.0, 0.5]) if metric != "GREAT_CIRCLE" else rng.choice([1.0, 5.0]),
+                "ystep": rng.choice([1.0, 3.0, 0.25]) if metric != "GREAT_CIRCLE" else rng.choice([1.0, 4.0]),
+                "max_distance": rng.choice([None, None, 1.0, 1.5, 2.5, 4.0]) if metric != "GREAT_CIRCLE" else rng.choice([None, 300000.0]),
+                "target_values": rng.choice([None, None, [1], [2, 3], [0]]), "exact": single}
+        yield case
+
+
+def _c06_check(case, want_exact=None):
+    import warnings, importlib
+    import xarray as xr
+    P = importlib.import_module("xrspatial.proximity")
+    H, W = case["H"], case["W"]
+    a = np.array([np.nan if c == "nan" else float(c) for c in case["cells"]], dtype="float64").reshape(H, W)
+    ys = (np.arange(H) * case["ystep"])[::case["ysign"]].copy()
+    xs = np.arange(W) * case["xstep"]
+    if case["metric"] == "GREAT_CIRCLE":
+        ys = ys - 20.0
+        xs = xs - 10.0
+    r = xr.DataArray(a, dims=["y", "x"], coords={"y": ys, "x": xs})
+    kw = {"distance_metric": case["metric"]}
+    if case["max_distance"] is not None:
+        kw["max_distance"] = case["max_distance"]
+    tv = case["target_values"]
+    if tv is not None:
+        kw["target_values"] = list(tv)
+    with warnings.catch_warnings():
+        warnings.simplefilter("ignore")
+        p = np.asarray(P.proximity(r, **kw).data, dtype="float64")
+        al = np.asarray(P.allocation(r, **kw).data, dtype="float64")
+        di = np.asarray(P.direction(r, **kw).data, dtype="float64")
+    if tv is None:
+        T = [(i, j) for i in range(H) for j in range(W) if a[i, j] != 0 and np.isfinite(a[i, j])]
+    else:
+        T = [(i, j) for i in range(H) for j in range(W) if any(a[i, j] == t for t in tv)]
+    md = case["max_distance"] if case["max_distance"] is not None else np.inf
+    D = lambda i, j, t: _dist(case["metric"], xs[j], xs[t[1]], ys[i], ys[t[0]])
+    tol = lambda d: 1e-5 * (1 + abs(d))
+    for i in range(H):
+        for j in range(W):
+            pv = p[i, j]
+            is_t = (i, j) in T
+            if (pv == 0) != is_t and not (np.isnan(pv) and not is_t):
+                if is_t or pv == 0:
+                    return "cell (%d,%d): proximity %r but target=%s (proximity is 0 exactly on target cells)" % (i, j, pv, is_t)
+            nearest = min([D(i, j, t) for t in T], default=np.inf)
+            if np.isnan(pv):
+                if not (np.isnan(al[i, j]) and np.isnan(di[i, j])):
+                    return "cell (%d,%d): proximity NaN but allocation %r / direction %r" % (i, j, al[i, j], di[i, j])
+                if T and md == np.inf:
+                    return "cell (%d,%d): NaN although a target exists and max_distance is unbounded" % (i, j)
+                if nearest <= md - tol(md) and (want_exact or case.get("exact")):
+                    return "cell (%d,%d): NaN although a target lies within max_distance (%r <= %r)" % (i, j, nearest, md)
+                continue
+            if np.isnan(al[i, j]) or np.isnan(di[i, j]):
+                return "cell (%d,%d): proximity %r but allocation %r / direction %r" % (i, j, pv, al[i, j], di[i, j])
+            if pv < nearest - tol(nearest):
+                return "cell (%d,%d): proximity %r is smaller than the distance %r to the nearest target" % (i, j, pv, nearest)
+            if pv > md + tol(md):
+                return "cell (%d,%d): proximity %r exceeds max_distance %r" % (i, j, pv, md)
+            wit = [t for t in T if abs(D(i, j, t) - pv) <= tol(pv) and a[t] == al[i, j]
+                   and min(abs(_bearing(xs[j], xs[t[1]], ys[i], ys[t[0]]) - di[i, j]),
+                           360.0 - abs(_bearing(xs[j], xs[t[1]], ys[i], ys[t[0]]) - di[i, j])) <= 1e-3]
+            if not wit:
+                return ("cell (%d,%d): proximity %r, allocation %r, direction %r do not name one real target "
+                        "(targets %r)" % (i, j, pv, al[i, j], di[i, j], [(t, D(i, j, t), a[t]) for t in T][:6]))
+            if (want_exact or case.get("exact")) and abs(pv - nearest) > tol(nearest):
+                return "cell (%d,%d): proximity %r, exact nearest-target distance %r" % (i, j, pv, nearest)
+    return None
+
+
+StandIn("c06_proximity_soundness", lambda rng, tier: _c06_cases(rng, tier), _c06_check,
+        bound="random rasters up to 7x7, default / explicit targets, NaN cells, metrics {EUCLIDEAN, MANHATTAN, GREAT_CIRCLE}, "
+              "max_distance {inf, 1..4}, ascending/descending y, non-square cells: 0 iff target, witness target shared by "
+              "proximity/allocation/direction, never below the nearest distance nor above max_distance; single targets exact; "
+              "NUMBA_DISABLE_JIT=1")
+_ex = lambda rng, tier: _c06_cases(rng, tier, exhaustive=True)
+_ex.exhaustive = True
+StandIn("c06_proximity_exact_small_grids", _ex, lambda c: _c06_check(c, True),
+        bound="every target layout on 2x3 and 3x3 grids (thorough: also 3x4, 4x3, 2x5), both y directions, EUCLIDEAN and MANHATTAN, "
+              "non-square cells: proximity equals the exact nearest-target distance")
+
+
+def _c07_cases(rng, tier):
+    while True:
+        H, W = rng.randint(2, 6), rng.randint(2, 6)
+        dens = rng.choice([0.1, 0.3])
+        cells = [rng.choice([1, 2, 3]) if rng.random() < dens else 0 for _ in range(H * W)]
+        if not any(cells):
+            cells[rng.randrange(H * W)] = 1
+        ystep, xstep = rng.choice([1.0, 2.0]), rng.choice([1.0, 0.5, 2.0])
+        mds = [0.5, 1.0, 1.4, 2.0, 2.5]
+        md = rng.choice([None] + [m * rng.choice([ystep, xstep]) for m in mds])
+        if md is not None and (int(md / ystep + 0.5) > H or int(md / xstep + 0.5) > W):
+            md = None         # property domain: the halo does not exceed the raster's own height / width
+        yield {"H": H, "W": W, "cells": cells, "ysign": rng.choice([1, -1]), "xstep": xstep, "ystep": ystep,
+               "metric": rng.choice(["EUCLIDEAN", "MANHATTAN"]), "max_distance": md, "fn": rng.choice(["proximity", "allocation", "direction"]),
+               "chunks": [list(_compositions(H, rng)), list(_compositions(W, rng))],
+               "scheduler": rng.choice(["synchronous", "threads4"])}
+
+
+def _c07_check(case):
+    import warnings, importlib
+    import dask.array as da
+    import xarray as xr
+    P = importlib.import_module("xrspatial.proximity")
+    H, W = case["H"], case["W"]
+    a = np.array(case["cells"], dtype="float64").reshape(H, W)
+    ys = (np.arange(H) * case["ystep"])[::case["ysign"]].copy()
+    xs = np.arange(W) * case["xstep"]
+    coords = {"y": ys, "x": xs}
+    kw = {"distance_metric": case["metric"]}
+    if case["max_distance"] is not None:
+        kw["max_distance"] = case["max_distance"]
+    fn = getattr(P, case["fn"])
+    with warnings.catch_warnings():
+        warnings.simplefilter("ignore")
+        base = np.asarray(fn(xr.DataArray(a, dims=["y", "x"], coords=coords), **kw).data)
+        rd = xr.DataArray(da.from_array(a, chunks=tuple(tuple(c) for c in case["chunks"])), dims=["y", "x"], coords=coords)
+        out = fn(rd, **kw)
+        if not hasattr(out.data, "compute"):
+            return "%s on a Dask raster returned a %s" % (case["fn"], type(out.data).__name__)
+        kws = {"scheduler": "synchronous"} if case["scheduler"] == "synchronous" else {"scheduler": "threads", "num_workers": 4}
+        try:
+            got = out.data.compute(**kws)
+        except Exception as e:
+            return "%s chunks=%s max_distance=%r: compute raised %r" % (case["fn"], case["chunks"], case["max_distance"], e)
+    if not same(got, base, 1e-6):
+        return "%s chunks=%s max_distance=%r metric=%s: chunked result differs from the whole-raster result\n%r\nvs\n%r" % (
+            case["fn"], case["chunks"], case["max_distance"], case["metric"], got.tolist(), base.tolist())
+    return None
+
+
+StandIn("c07_chunked_proximity", _c07_cases, _c07_check,
+        bound="random rasters 2..6 x 2..6, every random composition of H and W as chunks, max_distance in {inf, 0.5..2.5 cells} "
+              "(halo within the raster), both metrics, proximity/allocation/direction, ascending/descending y, non-square cells")
